@@ -7,6 +7,7 @@ EXTENDS ConfigValidate, Json
 Doc == [pipes |-> {[sig |-> p[1], name |-> p[2], r |-> cfg[p].r, p |-> cfg[p].p, e |-> cfg[p].e] : p \in On},
         receivers  |-> DefRcv, processors |-> DefProc, exporters |-> DefExp, connectors |-> DefConn, extensions |-> DefExt,
         sexts |-> sexts, blank |-> blank,
+        keys |-> {[kind |-> y[1], a |-> y[2], b |-> y[3], key |-> y[4], accepted |-> Accepts(y[1], y[4])] : y \in LiveKeys},
         reject |-> Reject, defects |-> Defects]
 EmitDoc == PrintT(<<"BEH", ToJson(Doc)>>)
 =============================================================================
